@@ -275,6 +275,7 @@ func parentMain(id, tier string) int {
 			defer wg.Done()
 			defer func() { <-sem }()
 			from := int64(0)
+			hangs := 0
 			for attempt := 0; attempt < 12; attempt++ {
 				r, crash := runWorker(exe, id, tier, j, nshards, from, tmp)
 				mu.Lock()
@@ -289,6 +290,16 @@ func parentMain(id, tier string) int {
 				mu.Unlock()
 				if crash == nil {
 					return
+				}
+				if crash.hung {
+					hangs++
+					if hangs >= 3 {
+						mu.Lock()
+						total.Incomplete = true
+						total.Notes = append(total.Notes, fmt.Sprintf("shard %d/%s abandoned after %d hangs", j.shard, j.proc.name, hangs))
+						mu.Unlock()
+						return
+					}
 				}
 				from = crash.idx + 1
 			}
@@ -448,6 +459,7 @@ func merge(t *result, r *result, sets map[string]map[string]bool) {
 }
 
 type crashInfo struct {
+	hung   bool
 	idx    int64
 	desc   string
 	detail string
@@ -507,7 +519,7 @@ wait:
 		}
 	}
 	// crashed, deadlocked or hung
-	ci := &crashInfo{}
+	ci := &crashInfo{hung: hung}
 	if b, err := os.ReadFile(prog); err == nil && len(b) >= 18 {
 		ci.idx = int64(binary.LittleEndian.Uint64(b[0:8]))
 		n := int(binary.LittleEndian.Uint16(b[16:18]))
@@ -539,7 +551,7 @@ func hangLimit() time.Duration {
 			return time.Duration(v) * time.Second
 		}
 	}
-	return 240 * time.Second
+	return 120 * time.Second
 }
 
 // crashSummary extracts the panic message and the first go.sh frame.
